@@ -216,6 +216,9 @@ func c04Check(env *core.Env, cc core.Case) core.Verdict {
 	if strings.HasPrefix(c.CfgName, "unreadable") {
 		// every read of the configuration file fails (the statement: an unreadable file means nothing is inserted)
 		gen.Strace, gen.InjectPath, gen.InjectCall, gen.InjectErr = injLog, filepath.Join(root, "regex-assembly", cfgFile), "read", "EIO"
+		if c.CfgName == "unreadable-midway" {
+			gen.InjectWhen = "2+"
+		}
 	}
 	r := sut.Run(gen)
 	v := core.Verdict{Status: core.Held, Features: []string{"cfg:" + c.CfgName, "kind:" + c.Kind, "surround:" + c.Surround}, Counts: map[string]int{}}
@@ -453,6 +456,10 @@ func c04Gen(r *rand.Rand) *c04Case {
 	for i := 0; i < n; i++ {
 		if core.Chance(r, 1, 12) {
 			c.Words = append(c.Words, "'"+core.Pick(r, "x[yz]+", "foo|bar", `a\.b`, `q\d+`, "user@", "[a-c]+~", `mail\@`, `x\~`, "p q"))
+		} else if core.Chance(r, 1, 14) {
+			// words at the boundary of the marker rules: nothing but an escaped marker, two markers of one kind
+			// or of both kinds, a one-letter word with a marker
+			c.Words = append(c.Words, core.Pick(r, `\@`, `\~`, `mail@@`, `vi~~`, `a@`, `b~`, `vim~@`, `vi@~`, `@@`, `~~`))
 		} else {
 			c.Words = append(c.Words, word())
 		}
@@ -482,6 +489,13 @@ func c04Gen(r *rand.Rand) *c04Case {
 		c.CfgYAML = "# " + strings.Repeat("generated by a tool that does not wrap its comments ", 1400) + "\n" + marker.yaml()
 	case 15:
 		c.CfgName, c.CfgYAML, c.Effective, c.Exact = "unreadable", marker.yaml(), evasionCfg{}, true
+		if core.Chance(r, 1, 2) {
+			// the file can be opened and the first read succeeds, every later one fails; what has been read by then
+			// is valid YAML on its own (the second half of the file holds the anti_evasion patterns)
+			c.CfgName = "unreadable-midway"
+			c.CfgYAML = "patterns:\n  anti_evasion_suffix:\n    unix: _su_\n    windows: _sw_\n  anti_evasion_no_space_suffix:\n    unix: _nu_\n    windows: _nw_\n" +
+				strings.Repeat("# a comment line that fills the first block of the file up to its end ........\n", 12) + "  anti_evasion:\n    unix: _eu_\n    windows: _ew_\n"
+		}
 	case 14:
 		// patterns with percent signs (text that a format string would interpret)
 		pct := evasionCfg{Unix: `(?:%s|%d)?`, Windows: `(?:%[a-z]+%)?`, SuffixUnix: `%v.*`, SuffixWindows: `%path%.*`, NoSpUnix: `%5d.*`, NoSpWindows: `%%.*`}
